@@ -269,7 +269,7 @@ def strict_json_ok(obj):
         return False
 
 
-REQUEST_TIMEOUT = 6.0
+REQUEST_TIMEOUT = 20.0
 
 
 async def call(ctx, sid, method, args, raw_line=None):
